@@ -216,6 +216,16 @@ func runE2EScn(sc e2eScn) (e2eScnOut, error) {
 		}
 		for i, e := range sc.Epochs {
 			rel := filepath.Join(tmp, "rel-"+strconv.Itoa(i))
+			if e.RootErr == "notdir" {
+				// the release is a file: the certificate directory cannot be reached (ENOTDIR)
+				if err := os.WriteFile(rel, []byte("a file where a directory is expected"), 0o644); err != nil {
+					return out, err
+				}
+				continue
+			}
+			if e.RootErr != "" {
+				return out, fmt.Errorf("root error %q cannot be staged for a real source", e.RootErr)
+			}
 			if e.Missing {
 				if err := os.MkdirAll(rel, 0o755); err != nil { // the release has no certificate directory
 					return out, err
@@ -258,7 +268,7 @@ func runE2EScn(sc e2eScn) (e2eScnOut, error) {
 		// watch and is given 2.5 refresh periods
 		watches := make([]*dirWatch, len(sc.Epochs))
 		for i, e := range sc.Epochs {
-			if !e.Missing {
+			if !e.Missing && e.RootErr == "" {
 				watches[i] = watchDir(filepath.Join(tmp, "rel-"+strconv.Itoa(i), child))
 				defer watches[i].close()
 			}
@@ -412,7 +422,7 @@ func runE2E(raw json.RawMessage) (interface{}, error) {
 // epochNames gives every file of the epoch a name that belongs to this epoch only.
 func epochNames(e srcEpoch, j int) srcEpoch {
 	p := "e" + strconv.Itoa(j) + "-"
-	c := srcEpoch{ListSt: e.ListSt, ListMode: e.ListMode, Missing: e.Missing, Files: []srcFile{}, Lines: []string{}}
+	c := srcEpoch{ListSt: e.ListSt, ListMode: e.ListMode, Missing: e.Missing, RootErr: e.RootErr, Files: []srcFile{}, Lines: []string{}}
 	re := func(n string) string {
 		if i := strings.LastIndex(n, "/"); i >= 0 {
 			return n[:i+1] + p + n[i+1:]
@@ -454,6 +464,9 @@ func genE2EScn(r *hx.Rand, kind string) e2eScn {
 		var e srcEpoch
 		if r.Chance(1, 2) {
 			e = breakEpoch(r, kind, good)
+			if e.RootErr == "locked" {
+				e.RootErr = "notdir" // the real watcher runs with this process' identity
+			}
 		} else {
 			// a usable epoch that presents other certificates than the one before (the harness waits for the change)
 			for k := 0; k < 20; k++ {
@@ -486,6 +499,8 @@ func init() {
 		// publication by re-pointing a link on the configured path
 		{Kind: "path", CertPath: "certs", Epochs: []srcEpoch{epochNames(g0, 0), epochNames(g1, 1)}},
 		{Kind: "path", CertPath: "", Epochs: []srcEpoch{epochNames(g0, 0), epochNames(with(g0, func(e *srcEpoch) { e.Files[1].Dangling = true }), 1), epochNames(g1, 2)}},
+		// the certificate directory can no longer be reached
+		{Kind: "path", CertPath: "certs", Epochs: []srcEpoch{epochNames(g0, 0), {RootErr: "notdir", Files: []srcFile{}, Lines: []string{}}}},
 	}
 	hx.Register(&hx.Stream{
 		Name: "c11.e2e",
